@@ -420,6 +420,9 @@ func (w *wbuild) handler(inv *simexec.Invocation) (int, error) {
 		}
 	}
 	ev.WrongDeps = strings.Join(wrong, ",")
+	w.mu.Lock()
+	extFail := u.ExtFail(s)
+	w.mu.Unlock()
 	dur := time.Duration(s.DurMS) * time.Millisecond
 	if s.Fail == "slow" {
 		dur = time.Duration(s.TimeoutMS*3) * time.Millisecond
@@ -427,8 +430,17 @@ func (w *wbuild) handler(inv *simexec.Invocation) (int, error) {
 	alive := inv.Sleep(dur / 2)
 	if alive {
 		dg := RunDigest(s, view)
-		writeListing(ws, s, OutputListing(s, dg), s.Fail == "omit")
-		if s.Establish {
+		writeListing(ws, s, OutputListing(s, dg), s.Fail == "omit" || extFail == "omit")
+		if s.Breaks || extFail == "break" {
+			w.mu.Lock()
+			for _, c := range s.Checks {
+				u.Ext[c.Key] = "broken"
+				if c.Expect == "" {
+					u.Ext[c.Key] = ""
+				}
+			}
+			w.mu.Unlock()
+		} else if s.Establish {
 			w.mu.Lock()
 			for _, c := range s.Checks {
 				want := c.Expect
@@ -443,7 +455,7 @@ func (w *wbuild) handler(inv *simexec.Invocation) (int, error) {
 	}
 	ev.End = w.s.Steps()
 	ev.Killed = !alive
-	if s.Fail == "exit" {
+	if s.Fail == "exit" || extFail == "exit" {
 		ev.Exit = 1
 	}
 	w.record(ev)
